@@ -170,6 +170,16 @@ CHECKS = {
         design_ref="3 C11",
         technique="CrossHair (z3) on real transforms with symbolic leaves; z3 query for the CASE wrapper; structural validation of emitted SQL over symbolic choices; replay on the real stack",
     ),
+    "C01": dict(
+        category="other",
+        text="SMT per Snowflake type keyword (39 spellings x 3 DDL forms): the DuckDB type is read off the CREATE TABLE / CTAS the real pipeline emits and "
+        "z3 searches for a value the Snowflake type admits and the DuckDB type does not (scaled integers, binary64 vs binary32, microsecond "
+        "counts), with no bound on the value; CrossHair over the real describe_as_rowtype for the Python-class consistency on symbolic type "
+        "tags / precision / scale, and over the real write_pandas on symbolic column names.  Literal/parameter text is C08; exact storage "
+        "and arrow conversion are DuckDB's/pyarrow's (trusted).",
+        design_ref="3 C01",
+        technique="z3 queries over type domains derived from the emitted DDL; CrossHair (z3) on real functions with symbolic strings/ints; replay on the real stack",
+    ),
 }
 
 NOT_YET = "not claimed yet: check not built in this round (see DESIGN.md 7 for the order of work)"
